@@ -104,6 +104,22 @@ func (e *CodecErr) FromJSONRPCError(j jsonrpc.JSONRPCError) error {
 	return nil
 }
 
+// CodecValErr is registered in VALUE form; its decode method has a pointer receiver (the usual shape),
+// so the server sends code + message and the client rebuilds the content through FromJSONRPCError.
+type CodecValErr struct {
+	Msg  string
+	Code int
+}
+
+func (e CodecValErr) Error() string { return e.Msg }
+func (e CodecValErr) ToJSONRPCError() (jsonrpc.JSONRPCError, error) {
+	return jsonrpc.JSONRPCError{Code: 9, Message: e.Msg}, nil
+}
+func (e *CodecValErr) FromJSONRPCError(j jsonrpc.JSONRPCError) error {
+	e.Msg, e.Code = j.Message, int(j.Code)
+	return nil
+}
+
 type FailMetaErr struct{ Msg string }
 
 func (e *FailMetaErr) Error() string                { return e.Msg }
@@ -136,6 +152,7 @@ var c11Regs = []errReg{
 	{6, new(MetaValErr), "metaval"},
 	{7, new(*FailMetaErr), "failmeta"},
 	{8, new(*FailCodecErr), "failcodec"},
+	{9, new(CodecValErr), "codecval"},
 }
 
 func c11Table(name string, server bool) *jsonrpc.Errors {
@@ -292,6 +309,8 @@ func (c c11Case) build() error {
 			_ = json.Unmarshal(c.Data, &e.Data)
 		}
 		return e
+	case "codecval":
+		return CodecValErr{Msg: c.Msg}
 	case "failmeta":
 		return &FailMetaErr{c.Msg}
 	case "failcodec":
@@ -379,9 +398,9 @@ func (e *c11Env) run(c c11Case) *Violation {
 	clientKnowsCode := false
 	switch c.Table {
 	case "same", "client-only", "swapped":
-		clientKnowsCode = wireCode >= 2 && wireCode <= 8 || wireCode == -1111111
+		clientKnowsCode = wireCode >= 2 && wireCode <= 9 || wireCode == -1111111
 	case "disjoint":
-		clientKnowsCode = wireCode >= 12 && wireCode <= 18 || wireCode == -1111111
+		clientKnowsCode = wireCode >= 12 && wireCode <= 19 || wireCode == -1111111
 	}
 
 	generic, isGeneric := got.(*jsonrpc.JSONRPCError)
@@ -427,6 +446,10 @@ func (e *c11Env) run(c c11Case) *Violation {
 		if string(a) != string(b) {
 			return violf("meta-content-changed", "marshalled content changed: sent %s, received %s", a, b)
 		}
+	case "codecval":
+		if g := got.(CodecValErr); g.Msg != c.Msg || g.Code != 9 {
+			return violf("codec-content-changed", "value-registered codec error: sent message %q under code 9, received %+v", c.Msg, g)
+		}
 	case "codec":
 		a, _ := herr.(*CodecErr).ToJSONRPCError()
 		b, _ := got.(*CodecErr).ToJSONRPCError()
@@ -444,7 +467,7 @@ func isNilInside(err error) bool {
 	return v.Kind() == reflect.Ptr && v.IsNil()
 }
 
-var c11Kinds = []string{"nil", "plain", "plainptr", "ptrplain", "meta", "metaval", "codec", "failmeta", "failcodec", "stdlib", "wrapped"}
+var c11Kinds = []string{"nil", "plain", "plainptr", "ptrplain", "meta", "metaval", "codec", "codecval", "failmeta", "failcodec", "stdlib", "wrapped"}
 
 func genC11(t *rapid.T) c11Case {
 	msg, _ := genString(t, "msg")
@@ -468,7 +491,7 @@ func genC11(t *rapid.T) c11Case {
 		c.Nested = genInner(t, "nested", 1)
 	case "codec":
 		if rapid.IntRange(0, 2).Draw(t, "owncode") == 0 {
-			c.Code = rapid.SampledFrom([]int{9, 100, 1000, 65536, -5, 2147483647, -32000, -32768, -1}).Draw(t, "code")
+			c.Code = rapid.SampledFrom([]int{29, 100, 1000, 65536, -5, 2147483647, -32000, -32768, -1}).Draw(t, "code")
 		}
 		switch rapid.IntRange(0, 2).Draw(t, "datakind") {
 		case 1:
